@@ -58,6 +58,7 @@ def worker(prop, props, widx, n_examples, max_edges, max_ops, features, nontrivi
     res = common.Result()
     known = common.Known()
     state = {'fail': None}
+    budget = common.ShrinkBudget()
     runner = RUNNERS.get(runner_name)
     with Probe("fast") as pfast, Probe("san") as psan:
         @hseed(common.sub_seed(prop, widx))
@@ -66,7 +67,10 @@ def worker(prop, props, widx, n_examples, max_edges, max_ops, features, nontrivi
         @given(graphs.graphs(max_edges=max_edges, features=features), graphs.histories(max_ops=max_ops, with_failures=with_failures))
         def test(g, ops):
             # every 6th case (chosen by the hash of the case, so a pure function of it) runs under ASan/UBSan
-            san = int(common.digest(dict(g=g, ops=ops)), 16) % 6 == 0
+            dg = common.digest(dict(g=g, ops=ops))
+            if budget.skip(dg):
+                return
+            san = int(dg, 16) % 6 == 0
             res.extra['cases_under_sanitizers'] += 1 if san else 0
             findings, sim = run_case(psan if san else pfast, g, ops, props, runner)
             feats = graph_features(g)
@@ -80,16 +84,11 @@ def worker(prop, props, widx, n_examples, max_edges, max_ops, features, nontrivi
                     res.known_hits[f['known']] += 1
                     res.known_examples.setdefault(f['known'], dict(g=g, ops=ops, finding=f))
                     continue
-                state['fail'] = dict(g=g, ops=ops, finding=dict(f))
+                state['fail'] = (dict(g=g, ops=ops, runner=runner_name),
+                                 "%s: %s %s" % (f['prop'], f['kind'], json.dumps(f['detail'], default=repr)[:1500]))
+                budget.failed(dg)
                 raise Falsified(f['kind'])
-        try:
-            test()
-        except Falsified:
-            res.failures.append(dict(case=dict(g=state['fail']['g'], ops=state['fail']['ops'], runner=runner_name),
-                                     why="%s: %s %s" % (state['fail']['finding']['prop'], state['fail']['finding']['kind'],
-                                                        json.dumps(state['fail']['finding']['detail'], default=repr)[:1500])))
-        except Exception:
-            res.failures.append(dict(why="harness exception", harness_error=True, trace=traceback.format_exc()))
+        common.run_hypothesis(test, state, res)
     return res
 
 
